@@ -97,7 +97,7 @@ type c07Env struct {
 
 func runC07(h *H) {
 	imports := []string{"From GoImap.Base Require Import Bytes.", "From GoImap.Model Require Import Tracker TrackerCorr."}
-	corr := h.NewCorr("tracker", imports, "tr_mismatches", 150)
+	corr := h.NewCorr("tracker", imports, "tr_mismatches", 150).Type("tr_case")
 	h.Rule("histories of NewSession/Close/QueueNumMessages(+k, k in 0..3)/QueueExpunge/QueueMessageFlags(with and without source)/QueueMailboxFlags/Poll(allow in {true,false}) on the real MailboxTracker with up to 3 sessions; Poll is driven through a real server connection (NOOP => allowExpunge, FETCH => not) and the emitted updates are read off the wire; Decode/EncodeSeqNum are queried for every number 0..K on every live session after every step. Corpus, exhaustive short histories, seeded random up to 25 steps. Non-trivial = at least one poll happened while the queue held an expunge, or an append of k>=2 was pending; distinct by history.")
 
 	// every connection gets its own stub; the harness attaches a tracker session to it later
